@@ -308,3 +308,25 @@ fn c03_handshake_list_wiring() {
         }
     }
 }
+
+/// Two-step heartbeat with a header length that is *not* tied to the payload length (the two-step API lets
+/// the caller pass any header): only lengths below 3 are refused on account of the header.
+#[kani::proof]
+#[kani::unwind(6)]
+fn c03_two_heartbeat_free_header_len() {
+    let buf: [u8; 7] = kani::any();
+    let n: usize = kani::any();
+    kani::assume(n <= 7);
+    let p = &buf[..n];
+    let hl: u16 = kani::any();
+    let h = TlsRecordHeader { record_type: TlsRecordType(0x18), version: TlsVersion(kani::any()), len: hl };
+    let r: Msgs = ManuallyDrop::new(tp::parse_tls_record_with_header(p, &h));
+    let wf = n >= 3 && (be16(p, 1) as usize) <= n - 3;
+    if wf && hl >= 3 {
+        vassert!(r.is_ok(), "C03.heartbeat.wellformed.accepted");
+        vcover!(hl as usize != n, "C03.heartbeat.cover.header_len_differs_from_payload_len");
+    }
+    if !wf {
+        vassert!(r.is_err(), "C03.heartbeat.cut_short.rejected");
+    }
+}
